@@ -140,15 +140,22 @@ class Machine:
         s = self.s
         text = render_token(tok)
         peek = how in ('peek', 'peek_dtype')
+        scale = None
         if how in ('read_dtype', 'peek_dtype'):
             try:
                 arg = self.bs.Dtype(tok['name'], tok.get('len')) if tok.get('len') is not None else self.bs.Dtype(tok['name'])
+                if tok.get('scale') is not None and arg.return_type in (int, float) and tok['name'] != 'bool':
+                    # a scaled Dtype object: the interpretation is the plain one times the scale, whether or not the Dtype has a length
+                    arg = self.bs.Dtype(tok['name'], tok.get('len'), scale=tok['scale']) if tok.get('len') is not None else self.bs.Dtype(tok['name'], scale=tok['scale'])
+                    scale = tok['scale']
             except Exception:
                 arg = text
         else:
             arg = text
         res = attempt(s.peek if peek else s.read, arg)
         m = token_model(tok, self.bits, self.pos)
+        if scale is not None and m[0] == 'ok' and isinstance(m[1], (int, float)) and not isinstance(m[1], bool):
+            m = ('ok', m[1] * scale) + tuple(m[2:])
         what = f"{how}({text!r})"
         if m[0] == 'ok':
             require(not is_raised(res), f'{what} raised', got=res, pos=self.pos, len=len(self.bits))
@@ -415,6 +422,13 @@ class Machine:
             require(0 <= d.pos <= len(d), 'derived stream has an invalid pos')
 
     # -- BitStream mutators (content is C03's business; here the position rule)
+    def do_peek_edit_read(self, tok, how1, op, how2):
+        self.do_read_tok(tok, how1)
+        self.invariant('peek before an in-place edit')
+        self.do_mutate(op)
+        self.invariant('in-place edit after a peek')
+        self.do_read_tok(tok, how2)
+
     def do_mutate(self, op):
         s = self.s
         before_len = len(self.bits)
@@ -559,14 +573,18 @@ def item_st(draw, allow_stretchy):
 def step_st(draw, mutable, focus=None):
     kinds = ['read_int', 'read_tok', 'read_tok', 'readlist', 'readto', 'setpos', 'getpos', 'bytealign', 'find', 'nonmoving', 'derive']
     if mutable:
-        kinds += ['mutate', 'mutate', 'stream_write', 'setprop']
+        kinds += ['mutate', 'mutate', 'stream_write', 'setprop', 'peek_edit_read']
     if focus:
         kinds = focus + (['setpos'] if 'setpos' not in focus else [])
     k = draw(st.sampled_from(kinds))
     if k == 'read_int':
         return [k, draw(st.sampled_from([0, 1, 2, 7, 8, 9, 16, -1, 1000]) | st.integers(-2, 70)), draw(st.sampled_from([False, False, True]))]
     if k == 'read_tok':
-        return [k, draw(token_st()), draw(st.sampled_from(['read', 'read', 'peek', 'read_dtype', 'peek_dtype']))]
+        tok = draw(token_st())
+        how = draw(st.sampled_from(['read', 'read', 'peek', 'read_dtype', 'peek_dtype']))
+        if how.endswith('_dtype') and draw(st.integers(0, 2)) == 0:
+            tok = dict(tok, scale=draw(st.sampled_from([2, 4, 0.5, 3, -1, 2.0])))
+        return [k, tok, how]
     if k == 'readlist':
         n = draw(st.integers(1, 4))
         items = []
@@ -592,6 +610,11 @@ def step_st(draw, mutable, focus=None):
     if k == 'derive':
         return [k, draw(st.sampled_from(['copycopy', 'copy', 'slice_all', 'slice', 'slice_step', 'add', 'add_empty', 'radd', 'mul', 'invert', 'and', 'and_self', 'or',
                                          'xor', 'lshift', 'rshift', 'ctor', 'bits_prop', 'join'])), draw(raw), draw(raw)]
+    if k == 'peek_edit_read':
+        # peek a token, edit the data in place with a mutator that keeps the length, read the same token: the read sees the new bits
+        tok = draw(token_st())
+        op = draw(c03.op_st(['invert', 'set', 'reverse', 'rol', 'ror', 'byteswap', 'ixor', 'iand', 'ior', 'set_int_int', 'set_slice_int', 'ilshift', 'irshift']))
+        return [k, tok, draw(st.sampled_from(['peek', 'peek', 'peek_dtype'])), op, draw(st.sampled_from(['read', 'read', 'read_dtype', 'peek']))]
     if k == 'mutate':
         names = c03.ALL_OPS + ['insert', 'overwrite', 'append', 'prepend', 'del_slice', 'set_slice_bits', 'replace']
         op = draw(c03.op_st(names))
@@ -652,6 +675,7 @@ SUBCHECKS = [
     Sub('C06.readlist_peek', run, strategy=case_st(['readlist', 'read_tok'], max_steps=5), examples={'quick': 8000, 'thorough': 120000}, ambient=('bytealigned',)),
     Sub('C06.readto_find_seek', run, strategy=case_st(['readto', 'find', 'setpos', 'getpos', 'bytealign', 'read_int'], max_steps=8), examples={'quick': 5000, 'thorough': 60000}),
     Sub('C06.mutators_move', run, strategy=case_st(['mutate', 'stream_write', 'setprop', 'read_int', 'setpos'], max_steps=8, classes=['BitStream']), examples={'quick': 8000, 'thorough': 120000}),
+    Sub('C06.peek_edit_read', run, strategy=case_st(['peek_edit_read', 'peek_edit_read', 'read_tok', 'setpos'], max_steps=5, classes=['BitStream']), examples={'quick': 5000, 'thorough': 60000}),
     Sub('C06.derived_and_nonmoving', run, strategy=case_st(['derive', 'nonmoving', 'setpos', 'read_int'], max_steps=8), examples={'quick': 5000, 'thorough': 60000}),
     Sub('C06.history', run, strategy=case_st(None, max_steps=30), examples={'quick': 5000, 'thorough': 80000}),
 ]
